@@ -74,7 +74,25 @@ def c2s_frames(ctx, count, maxn):
         n = rng.randint(past + d2 - 1, maxn)
         cfg = dict(n=n, past=past, delay2=d2, ncol=rng.choice([0, 0, 1, 2, 3]),
                    hasW=rng.random() < 0.5, same=rng.random() < 0.5)
-        t = dict(id=k + 1, sig=_sig(cfg), **cfg)
+        t = dict(id=k + 1, sig=_sig(cfg), kind="build", **cfg)
+        if k % 5 == 4:
+            # the regressor built on the framing: DummyTimeSeriesRegressor.predict on the symbolic series
+            from mlinsights.timeseries.dummies import DummyTimeSeriesRegressor
+            # (the regressor checks that its framed target is one-dimensional: it supports delay2 = 2 only)
+            d2 = 2
+            n = max(n, past + 1)
+            cfg.update(same=True, hasW=False, delay2=2, n=n)
+            t = dict(id=k + 1, sig="DummyTimeSeriesRegressor.predict", kind="dummy", site="timeseries.DummyTimeSeriesRegressor", **cfg)
+            try:
+                y = numpy.arange(n, dtype=numpy.float64)
+                Xe = None if cfg["ncol"] == 0 else numpy.array([[100 * (c + 1) + tt for c in range(cfg["ncol"])] for tt in range(n)], dtype=numpy.float64)
+                pr = DummyTimeSeriesRegressor(past=past, delay2=d2).fit(Xe, y).predict(Xe, y)
+                t.update(pred=_enc(pr), X=[], Y=[], W=[], nrow=0)
+                traces.append(t)
+                ctx.case(("dummy", n, past, d2, cfg["ncol"]))
+            except Exception as e:
+                ctx.violation("CallSucceeds", "timeseries.DummyTimeSeriesRegressor", "predict", repr(e), case=cfg)
+            continue
         try:
             obs, untouched = call_build(cfg)
         except Exception as e:
